@@ -497,11 +497,23 @@ def _s8_paths(f, start_block, stop_block, rdvars):
         did_read = any(e is not None and e["k"] == "call" and e.get("fn") == "lbuf_rd" for e in evs)
         ok = None
         known = {}
+        flagdefs = {}          # a local that holds a condition (clean = !rd;) stands for it
         for x in items:
+            if x[0] == "ev":
+                nd = f.nodes.get(x[1])
+                if nd is not None and nd["k"] == "bin" and nd["op"] == "=" and nd["l"]["k"] == "ref" and \
+                        nd["l"].get("cat") == "local":
+                    flagdefs[nd["l"]["name"]] = nd["r"]
+                elif nd is not None and nd["k"] == "var" and "init" in nd:
+                    flagdefs[nd["name"]] = nd["init"]
+                continue
             if x[0] != "br":
                 continue
             c = f.nodes[x[1]]
             t = int(bool(x[2]))
+            c0, t0 = negate_truth(c, bool(t))
+            if c0["k"] == "ref" and c0["name"] in flagdefs and c0["name"] not in rdvars:
+                c, t = flagdefs[c0["name"]], int(t0)
             known = dict(known)
             if did_read:
                 envs = []
@@ -655,28 +667,45 @@ def rule_G8(ctx):
     ctx.begin("G8", floor=2, what="nesting level fits the bits of a line's mark")
     prog = ctx.prog
     acc = {}           # accessor name -> (param index, max shift)
+
+    def shifted_params(g):
+        """names of g's parameters used as the amount of a `1 << p`, directly or through a
+        helper of the file whose own parameter is"""
+        pn_ = [p_["name"] for p_ in g.params]
+        out_ = set()
+        for n in g.walk():
+            if n["k"] == "bin" and n["op"] == "<<" and cval(n["l"]) == 1:
+                r = strip_casts(n["r"])
+                if r["k"] == "ref" and r["name"] in pn_:
+                    out_.add(r["name"])
+        return out_
     for f in prog.funcs.values():
         if f.file != "lbuf.c":
             continue
         pn = [p_["name"] for p_ in f.params]
-        for n in f.walk():
-            if n["k"] != "bin" or n["op"] != "<<" or cval(n["l"]) != 1:
-                continue
-            r = strip_casts(n["r"])
-            if r["k"] != "ref" or r["name"] not in pn:
-                continue
-            # the mark cell the shifted bit is combined with (in the same statement, or through a
-            # local that holds the bit)
-            cells = [x for x in f.walk() if x["k"] == "sub" and strip_casts(x["base"])["k"] == "member"
-                     and strip_casts(x["base"])["field"] == "ln_glob"]
-            if not cells:
-                continue
-            bits = _TYBITS.get(cells[0].get("ty"))
-            if bits is None:
-                raise AnalysisBroken("%s: width of a mark cell (%s) unknown" % (f.name, cells[0].get("ty")))
-            mx = bits - 1 if bits < 32 else bits - 2
+        # the mark cells this function touches, and their width
+        mem = [x for x in f.walk() if x["k"] == "member" and x.get("field") == "ln_glob"]
+        if not mem:
+            continue
+        ty = str(mem[0].get("ty", "")).replace("*", "").strip()
+        levels = set(shifted_params(f))
+        for c_ in f.calls():
+            h_ = prog.resolve(f, c_["fn"]) if c_.get("fn") else None
+            if h_ is not None and h_.file == f.file and h_ is not f:
+                hp_ = [q["name"] for q in h_.params]
+                for nm_ in shifted_params(h_):
+                    a_ = strip_casts(c_["args"][hp_.index(nm_)]) if hp_.index(nm_) < len(c_["args"]) else None
+                    if a_ is not None and a_["k"] == "ref" and a_["name"] in pn:
+                        levels.add(a_["name"])
+        if not levels:
+            continue
+        bits = _TYBITS.get(ty)
+        if bits is None:
+            raise AnalysisBroken("%s: width of a mark cell (%s) unknown" % (f.name, ty))
+        mx = bits - 1 if bits < 32 else bits - 2
+        for nm_ in levels:
             old = acc.get(f.name)
-            acc[f.name] = (pn.index(r["name"]), min(mx, old[1]) if old else mx)
+            acc[f.name] = (pn.index(nm_), min(mx, old[1]) if old else mx)
     if not acc:
         raise AnalysisBroken("lbuf.c: no `1 << level` on ln_glob[] found")
     counters = {}
@@ -831,6 +860,13 @@ def rule_G9(ctx):
     f = prog.func("ec_glob", file="ex.c")
     cfg = f.cfg
     execs = list(f.calls("ex_exec"))
+    callers_ = [f]         # ec_glob and the helpers of the file that run the command list for it
+    if not execs:
+        for c_ in f.calls():
+            h_ = prog.resolve(f, c_["fn"]) if c_.get("fn") else None
+            if h_ is not None and h_.file == f.file and h_ is not f and any(True for _ in h_.calls("ex_exec")):
+                execs.append(c_)
+                callers_.append(h_)
     if not execs:
         raise AnalysisBroken("ec_glob does not call ex_exec")
     ex = execs[0]
@@ -867,7 +903,7 @@ def rule_G9(ctx):
     accessors = {}
     fld = None
     for g in prog.funcs.values():
-        if g.file != "lbuf.c" or g is rep or not g.params or not any(True for _ in f.calls(g.name)):
+        if g.file != "lbuf.c" or g is rep or not g.params or not any(True for h_ in callers_ for _ in h_.calls(g.name)):
             continue
         touched = {x["field"] for x in g.walk() if x["k"] == "member" and x.get("rec") == "lbuf"}
         touched -= {"ln_n", "ln_sz", "ln", "ln_glob", "useq", "hist_n", "hist_u", "hist", "mark", "mark_off"}
@@ -876,26 +912,37 @@ def rule_G9(ctx):
             fld = touched.pop()
     LEN_, BIG = 9, 50
 
+    def helper_of(g, n):
+        """a helper of the file whose body runs the command list or touches the tracker"""
+        h = prog.resolve(g, n["fn"]) if n.get("fn") else None
+        if h is None or h.file != f.file or h is f or h.name in accessors:
+            return None
+        if any(True for _ in h.calls("ex_exec")) or any(True for _ in h.calls(tuple(accessors) or ("__none__",))):
+            return h
+        return None
+
     def run_iteration(i0, c_true, t_outer, err, adv):
-        """all paths of one iteration; yields (kind, detail)"""
+        """all paths of one iteration (helpers that run the command list or touch the tracker are
+        walked too, with pointers to the caller's variables followed); -> [(kind, detail)]"""
         try:
             paths = enum_paths(cfg, head, {head}, within=body | {head})
         except OverflowError:
             raise AnalysisBroken("ec_glob: too many paths through one iteration")
         out = []
-        for items, end in paths:
-            env = {ivar: i0}
-            model = {fld: t_outer} if fld else {}
-            vals = {}
-            passed = False
-            checked = False
-            dead = False
-            gset = set()
+
+        def walk(g, items, st, k0=0):
+            """process items[k0:] of function g on state st; returns the list of final states"""
+            frames = st["frames"]
+            env = frames[-1]
+            vals = st["vals"]
+
+            def deref(cell):
+                return frames[cell[1]].get(cell[2]) if isinstance(cell, tuple) and cell[0] == "cell" else None
 
             def val(e):
                 e = strip_casts(e)
-                if e["id"] in vals:
-                    return vals[e["id"]]
+                if (g.name, e["id"]) in vals:
+                    return vals[(g.name, e["id"])]
                 k = e["k"]
                 if k == "int":
                     return e["v"]
@@ -903,20 +950,27 @@ def rule_G9(ctx):
                     return e["cv"]
                 if k == "ref":
                     if e["name"] in env:
-                        return env[e["name"]]
+                        v_ = env[e["name"]]
+                        return v_
                     if e.get("cat") in ("global", "sglobal", "static") and e.get("ty") == "int":
-                        return adv
+                        return st["globals"].get(e["name"], adv)
                     return None
                 if k == "paren":
                     return val(e["e"])
                 if k == "cond":
                     c = val(e["c"])
-                    return None if c is None else val(e["t"] if c else e["f"])
+                    return None if c is None or isinstance(c, tuple) else val(e["t"] if c else e["f"])
+                if k == "un" and e["op"] == "*":
+                    return deref(val(e["e"]))
+                if k == "un" and e["op"] == "&" and strip_casts(e["e"])["k"] == "ref":
+                    return ("cell", len(frames) - 1, strip_casts(e["e"])["name"])
                 if k == "un" and e["op"] in ("!", "-"):
                     v = val(e["e"])
-                    return None if v is None else (int(not v) if e["op"] == "!" else -v)
+                    return None if v is None or isinstance(v, tuple) else (int(not v) if e["op"] == "!" else -v)
                 if k == "bin" and e["op"] in ("<", "<=", ">", ">=", "==", "!=", "+", "-", "&&", "||"):
                     x, y = val(e["l"]), val(e["r"])
+                    if isinstance(x, tuple) or isinstance(y, tuple):
+                        return None
                     if e["op"] == "&&" and (x == 0 or y == 0):
                         return 0
                     if e["op"] == "||" and ((x is not None and x != 0) or (y is not None and y != 0)):
@@ -930,73 +984,110 @@ def rule_G9(ctx):
                     return val(e["r"])
                 return None
 
-            for it in items:
+            def store(lhs, v):
+                lhs = strip_casts(lhs)
+                if lhs["k"] == "ref":
+                    if lhs.get("cat") in ("global", "sglobal", "static"):
+                        st["globals"][lhs["name"]] = v
+                    else:
+                        env[lhs["name"]] = v
+                elif lhs["k"] == "un" and lhs["op"] == "*":
+                    cell = val(lhs["e"])
+                    if isinstance(cell, tuple) and cell[0] == "cell":
+                        frames[cell[1]][cell[2]] = v
+
+            for k_i in range(k0, len(items)):
+                it = items[k_i]
                 if it[0] == "br":
-                    v = val(f.nodes[it[1]])
-                    if v is not None and bool(v) != bool(it[2]):
-                        dead = True
-                        break
+                    v = val(g.nodes[it[1]])
+                    if v is not None and not isinstance(v, tuple) and bool(v) != bool(it[2]):
+                        return []
                     continue
                 if it[0] != "ev":
                     continue
-                n = f.nodes.get(it[1])
+                n = g.nodes.get(it[1])
                 if n is None:
                     continue
+                if n["k"] == "return":
+                    st["ret"] = val(n["e"]) if n.get("e") is not None else None
+                    continue
                 if n["k"] == "call":
-                    if n["id"] in sites and passed and not checked:
-                        checked = True
+                    if g is f and n["id"] in sites and st["passed"] and not st["checked"]:
+                        st["checked"] = True
                         r = val(sites[n["id"]])
                         lim = min(i0 + 1, c_true)
-                        if r is None:
+                        if r is None or isinstance(r, tuple):
                             out.append(("unknown", "index %s at the mark test not evaluable" % key(sites[n["id"]])))
                         elif r < 0 or r > lim:
                             out.append(("resume", "with the current line at %d, the lowest change at %d%s the scan "
                                         "resumes at %d (the first line yet to visit may be at %d)" % (
                                             i0, c_true, ", other globals = %d" % adv, r, lim)))
-                    if n["id"] == ex["id"]:
-                        passed = True
+                    if n.get("fn") == "ex_exec":
+                        st["passed"] = True
                         if fld:
-                            model[fld] = min(model[fld], c_true)
-                        vals[n["id"]] = err
-                        for nm in gset:          # the command list may have set any global
-                            env[nm] = adv
+                            st["model"][fld] = min(st["model"][fld], c_true)
+                        vals[(g.name, n["id"])] = err
+                        for nm in list(st["globals"]):      # the command list may have set any global
+                            st["globals"][nm] = adv
                     elif n.get("fn") in accessors:
-                        g = accessors[n["fn"]]
-                        args = [model] + [val(a_) for a_ in n["args"][1:]]
-                        if any(a_ is None for a_ in args[1:]):
+                        h = accessors[n["fn"]]
+                        args = [st["model"]] + [val(a_) for a_ in n["args"][1:]]
+                        if any(a_ is None or isinstance(a_, tuple) for a_ in args[1:]):
                             out.append(("unknown", "argument of %s not evaluable" % n["fn"]))
-                            vals[n["id"]] = None
+                            vals[(g.name, n["id"])] = None
                         else:
                             try:
-                                vals[n["id"]] = Interp(prog).call(g, args)
+                                vals[(g.name, n["id"])] = Interp(prog).call(h, args)
                             except (Unsupported, OverRead) as e_:
                                 raise AnalysisBroken("%s not evaluable: %s" % (n["fn"], e_))
                     elif n.get("fn") == "lbuf_len":
-                        vals[n["id"]] = LEN_
+                        vals[(g.name, n["id"])] = LEN_
+                    elif helper_of(g, n) is not None and len(frames) < 3:
+                        h = helper_of(g, n)
+                        results = []
+                        try:
+                            hpaths = enum_paths(h.cfg, h.cfg.entry, set())
+                        except OverflowError:
+                            raise AnalysisBroken("%s: too many paths" % h.name)
+                        for hitems, hend in hpaths:
+                            st2 = {"frames": [dict(fr) for fr in frames], "vals": dict(vals), "model": dict(st["model"]),
+                                   "globals": dict(st["globals"]), "passed": st["passed"], "checked": st["checked"], "ret": None}
+                            st2["frames"].append({q["name"]: val(a_) for q, a_ in zip(h.params, n["args"])})
+                            for fin in walk(h, hitems, st2):
+                                fin["frames"].pop()
+                                fin["vals"][(g.name, n["id"])] = fin.pop("ret", None)
+                                fin["ret"] = None
+                                results += walk(g, items, fin, k_i + 1)
+                        return results
                     else:
-                        vals[n["id"]] = None
+                        vals[(g.name, n["id"])] = None
                     continue
-                tgt = rhs = None
-                if n["k"] in ("bin", "un") and (n.get("l") or n.get("e") or {}).get("cat") in ("global", "sglobal", "static"):
-                    gset.add((n.get("l") or n.get("e"))["name"])
-                if n["k"] == "bin" and n["op"] == "=" and n["l"]["k"] == "ref":
-                    tgt, rhs = n["l"]["name"], val(n["r"])
-                elif n["k"] == "bin" and n["op"] in ("+=", "-=") and n["l"]["k"] == "ref":
+                if n["k"] == "bin" and n["op"] == "=":
+                    store(n["l"], val(n["r"]))
+                elif n["k"] == "bin" and n["op"] in ("+=", "-=") and strip_casts(n["l"])["k"] == "ref":
                     x, y = val(n["l"]), val(n["r"])
-                    tgt, rhs = n["l"]["name"], (None if x is None or y is None else (x + y if n["op"] == "+=" else x - y))
+                    store(n["l"], None if x is None or y is None or isinstance(x, tuple) or isinstance(y, tuple)
+                          else (x + y if n["op"] == "+=" else x - y))
                 elif n["k"] == "var" and "init" in n:
-                    tgt, rhs = n["name"], val(n["init"])
-                elif n["k"] == "un" and n["op"] in ("post++", "pre++", "post--", "pre--") and n["e"]["k"] == "ref":
+                    env[n["name"]] = val(n["init"])
+                elif n["k"] == "un" and n["op"] in ("post++", "pre++", "post--", "pre--") and strip_casts(n["e"])["k"] == "ref":
                     x = val(n["e"])
-                    tgt, rhs = n["e"]["name"], (None if x is None else x + (1 if "++" in n["op"] else -1))
-                if tgt is not None:
-                    env[tgt] = rhs
-            if dead or not passed:
-                continue
-            if fld and isinstance(model.get(fld), int) and model[fld] > min(t_outer, c_true):
-                out.append(("restore", "entered with %d, lowest change %d: the field is left at %d" % (
-                    t_outer, c_true, model[fld])))
+                    nv_ = None if x is None or isinstance(x, tuple) else x + (1 if "++" in n["op"] else -1)
+                    vals[(g.name, n["id"])] = x if n["op"].startswith("post") else nv_
+                    store(n["e"], nv_)
+            return [st]
+
+        for items, end in paths:
+            st0 = {"frames": [{ivar: i0}], "vals": {}, "model": ({fld: t_outer} if fld else {}), "globals": {},
+                   "passed": False, "checked": False, "ret": None}
+            for fin in walk(f, items, st0):
+                if not fin["passed"]:
+                    continue
+                if fld and isinstance(fin["model"].get(fld), int) and fin["model"][fld] > min(t_outer, c_true):
+                    out.append(("restore", "entered with %d, lowest change %d: the field is left at %d" % (
+                        t_outer, c_true, fin["model"][fld])))
         return out
+
 
     problems = {}
     cases = 0
@@ -1032,7 +1123,7 @@ def rule_G9(ctx):
     if sts:
         fk = "%s->%s" % (rep.params[0]["name"], fld)
         for subst, hyps, items in sts:
-            cur = subst.get(fk)
+            cur = subst.get(fk, Lin({fk: 1}))          # not stored on this path: still the value on entry
             if cur is None or prove_le(cur, Lin({posn: 1}), hyps) != PROVEN or prove_le(cur, Lin({fk: 1}), hyps) != PROVEN:
                 okp = False
                 break
@@ -1302,6 +1393,12 @@ def rule_O3(ctx):
     from ..cfg import enum_paths
     prog = ctx.prog
     f = prog.func("dir_fix", file="dir.c")
+    if not any(True for _ in f.calls("dir_match")):
+        for c_ in f.calls():
+            h_ = prog.resolve(f, c_["fn"]) if c_.get("fn") else None
+            if h_ is not None and h_.file == f.file and h_ is not f and any(True for _ in h_.calls("dir_match")):
+                f = h_
+                break
     dm = prog.func("dir_match", file="dir.c")
     pn = [p_["name"] for p_ in dm.params]
     role = {}
@@ -1355,11 +1452,14 @@ def rule_O3(ctx):
     loops = cfg.loops()
     mb = cfg.pos(mc)[0]
     heads = [h for h, body in loops.items() if mb in body or h == mb]
-    if not heads:
-        raise AnalysisBroken("dir_fix: dir_match is not in a loop")
-    head = min(heads, key=lambda h: len(loops[h]))
-    body = loops[head] | {head}
-    paths = enum_paths(cfg, head, {head}, within=body)
+    if heads:
+        head = min(heads, key=lambda h: len(loops[h]))
+        body = loops[head] | {head}
+        paths = enum_paths(cfg, head, {head}, within=body)
+    else:
+        # the loop body is a function of its own: its paths from entry to exit
+        head = cfg.exit
+        paths = enum_paths(cfg, cfg.entry, set())
     n = 0
     def effect(l):
         o = list(range(20))
